@@ -35,9 +35,10 @@ def work(item):
         return work_hist(item)
     if kind == "bad":
         return work_bad(item)
-    _, opi = item
+    _, opi, naming = item
+    H.set_naming(naming)
     label, real, model_fn, _ = H.operations()[opi]
-    out = {"item": label, "paths": 0, "violations": [], "inconclusive": [], "samples": []}
+    out = {"item": f"{label}/{naming}", "paths": 0, "violations": [], "inconclusive": [], "samples": []}
 
     def fn():
         U = H.Universe()
@@ -62,9 +63,10 @@ def work(item):
 
 
 def work_bad(item):
-    _, bi, with_o, with_d = item
+    _, bi, with_o, with_d, naming = item
+    H.set_naming(naming)
     label, seq, exc_t = H.malformed_paths()[bi]
-    out = {"item": f"malformed:{label}", "paths": 0, "violations": [], "inconclusive": [], "samples": []}
+    out = {"item": f"malformed:{label}/{naming}", "paths": 0, "violations": [], "inconclusive": [], "samples": []}
 
     def fn():
         U = H.Universe()
@@ -97,19 +99,21 @@ def work_bad(item):
 
 def viol(kind, label, bits, what, spec):
     b = {k: (v in (True, "True")) for k, v in bits.items()}
-    rec = {"property": PID, "kind": kind, "bits": b, "op": label}
+    rec = {"property": PID, "kind": kind, "bits": b, "op": label, "naming": H.NODE_NAMING}
     if spec:
         rec.update(spec)
-    return {"key": f"c09:{kind}:{label}:{sorted(k for k, v in b.items() if v)}:{what[:50]}", "group": f"{kind}:{label}:{what[:40]}",
-            "what": f"pre-state {b}; {label}: {what}", "replay": rec}
+    nm = "" if H.NODE_NAMING == "distinct" else " (node C is also called 'A')"
+    return {"key": f"c09:{kind}:{label}:{H.NODE_NAMING}:{sorted(k for k, v in b.items() if v)}:{what[:50]}", "group": f"{kind}:{label}:{what[:40]}",
+            "what": f"pre-state {b}{nm}; {label}: {what}", "replay": rec}
 
 
 def work_hist(item):
-    _, first, length = item
+    _, first, length, naming = item
+    H.set_naming(naming)
     from checks.c08 import HIST_OPS
 
     ops = {o[0]: o for o in H.operations()}
-    out = {"item": f"hist:{first}", "paths": 0, "violations": [], "inconclusive": [], "samples": []}
+    out = {"item": f"hist:{first}/{naming}", "paths": 0, "violations": [], "inconclusive": [], "samples": []}
     seq = ()
     for tail in itertools.product(HIST_OPS, repeat=length - 1):
         seq = (first,) + tail
@@ -123,11 +127,12 @@ def work_hist(item):
                 ops[nm][2](m)
                 problems = H.graph_matches_model(net, U, m)
                 if problems:
-                    out["violations"].append({"key": f"c09:hist:{seq[:k+1]}", "group": f"hist:{nm.split('(')[0]}", "what": f"history {list(seq[:k+1])}: {problems}",
-                                              "replay": {"property": PID, "kind": "hist", "seq": list(seq[:k + 1])}})
+                    out["violations"].append({"key": f"c09:hist:{seq[:k+1]}:{naming}", "group": f"hist:{nm.split('(')[0]}", "what": f"history {list(seq[:k+1])} (node naming: {naming}): {problems}",
+                                              "replay": {"property": PID, "kind": "hist", "seq": list(seq[:k + 1]), "naming": naming}})
                     break
         except Exception as e:  # noqa
-            out["violations"].append({"key": f"c09:hist-exc:{seq}", "what": f"history {list(seq)} raised {e!r}", "replay": {"property": PID, "kind": "hist", "seq": list(seq)}})
+            out["violations"].append({"key": f"c09:hist-exc:{seq}:{naming}", "what": f"history {list(seq)} (node naming: {naming}) raised {e!r}",
+                                      "replay": {"property": PID, "kind": "hist", "seq": list(seq), "naming": naming}})
     out["samples"].append({"history": list(seq), "graph_equals_model_after_every_call": True})
     return out
 
@@ -180,6 +185,7 @@ def replay_tags(tags, wo, wd, verbose=True):
 
 
 def replay(rec):
+    H.set_naming(rec.get("naming", "distinct"))
     U = H.Universe()
     ops = {o[0]: o for o in H.operations()}
     if rec["kind"] == "tags":
@@ -221,10 +227,11 @@ def main():
 
     maxlen, cht = (6, 900) if args.thorough else (3, 300)  # generous: the run stops as soon as all paths are confirmed
     items = [("ch", "add_path_contract", maxlen, cht), ("ch", "add_path_reachability_twin", 3, 60)]
-    items += [("step", i) for i in range(len(H.operations()))]
-    items += [("bad", i, wo, wd) for i in range(len(H.malformed_paths())) for wo in (False, True) for wd in (False, True)]
+    NAMINGS = ("distinct", "shared")  # shared: two of the three node objects carry the same name
+    items += [("step", i, nm) for i in range(len(H.operations())) for nm in NAMINGS]
+    items += [("bad", i, wo, wd, nm) for i in range(len(H.malformed_paths())) for wo in (False, True) for wd in (False, True) for nm in NAMINGS]
     hl = 4 if args.thorough else 3
-    items += [("hist", f, hl) for f in HIST_OPS]
+    items += [("hist", f, hl, nm) for f in HIST_OPS for nm in (NAMINGS if args.thorough else NAMINGS[:1])]
     results = harness.pmap(work, items, args.serial)
     viol_, inc, samples, ch = [], [], [], []
     paths = hist = 0
@@ -251,7 +258,7 @@ def main():
         "exhaustive": not viol_ and not inc,
     }
     assumptions = [f"CrossHair bound: path length <= {maxlen}, element kinds {{Node, Link, other}}; 'Confirmed over all paths' required, anything else is inconclusive",
-                   "universe of the fork harness: 3 nodes, 2 links, 2 origins, 2 destinations, 64 pre-states; every variable control-determining (solver-driven exhaustive exploration)"]
+                   "universe of the fork harness: 3 nodes (named distinctly, and with two of them sharing a name), 2 links, 2 origins, 2 destinations, 64 pre-states; every variable control-determining (solver-driven exhaustive exploration)"]
     harness.finish(args, "model_checking", cov, assumptions, viol_, inc, t0)
 
 
